@@ -177,6 +177,21 @@ class Env:
         import ebpfcat.ebpf as ebpf_mod
         p = self.patches
         p.set(ethercat, "randint", self._randint("rand/ethercat"))
+        # device ioctls, should the library use any: the interface's MTU
+        def sim_ioctl(sock, request, arg=0, mutate=True):
+            import struct as _st
+            if request == 0x8921 and isinstance(arg, (bytes, bytearray)):   # SIOCGIFMTU
+                name = bytes(arg[:16]).split(b"\0")[0].decode()
+                b_ = self.buses.get(name)
+                if b_ is None:
+                    raise OSError(19, "No such device")
+                self.world.count("os/ioctl-mtu")
+                return bytes(arg[:16]) + _st.pack("I", b_.mtu) + bytes(arg[20:])
+            raise OSError(25, "Inappropriate ioctl for device")
+        for mod in (ethercat, ebpfcat_mod):
+            if hasattr(mod, "ioctl"):
+                p.set(mod, "ioctl", sim_ioctl)
+
         p.set(ebpfcat_mod, "randrange", self._randrange("rand/ebpfcat"))
         p.set(lock, "randrange", self._randrange("rand/lock"))
         clock = lambda: self.world.now
